@@ -229,7 +229,15 @@ def h_scenario(parts, header, footer, wpc, trees, writer=True, spill="sym", min_
     saved = (mpu.MPUChunk.from_dask_bag, mpu.MPUChunk.collate_substreams, dbase.tokenize, ddel.delayed)
     mpu.MPUChunk.from_dask_bag = staticmethod(from_dask_bag)
     mpu.MPUChunk.collate_substreams = staticmethod(collate_substreams)
-    dbase.tokenize = lambda *a, **k: "tok"
+    # the token distinguishes everything it is given (by identity): whatever the task name is
+    # derived from, it can only tell two calls apart through what was passed to tokenize
+    tok_args = []
+
+    def _tokenize(*a, **k):
+        tok_args.append(a)
+        return "tok"
+
+    dbase.tokenize = _tokenize
     ddel.delayed = lambda f, name=None, pure=None: _Eager(f)
     failure = None
     rr = None
@@ -252,6 +260,13 @@ def h_scenario(parts, header, footer, wpc, trees, writer=True, spill="sym", min_
     if failure is not None:
         prove(f"M1_no_failure[{type(failure).__name__}: {str(failure)[:60]}]", False)
         return
+    # the final task is named after a token: the token must depend on the data (the chunk
+    # collections or something derived from them), or two writes that differ only in their data
+    # share one dask key and one of them is silently served the other's result
+    def _from_data(x):
+        return isinstance(x, (mpu.MPUChunk, FakeBag)) or (isinstance(x, (list, tuple)) and any(_from_data(y) for y in x))
+
+    prove("M8_task_key_depends_on_the_data", any(_from_data(x) for a in tok_args[-1:] for x in a))
     if conc:
         want = (mk_data(0, hdr, 0) if header else b"") + b"".join(expected_stream) + (mk_data(data_end, ftr, 250) if footer else b"")
 
